@@ -11,7 +11,7 @@ Oracle: exact float64 enumeration (infmodels.Ref).  With x the unconstrained cho
 q(x) the exact proposal density and log w(x) = log p(x, obs) - log q(x):
 
  * per particle, exactly: constraints satisfied, log-weight = log w(x), score = log p(x, obs),
-   lml = logsumexp(log-weights) - log K; ChangeTarget: latents carried over, log-weight =
+   lml = logsumexp(log-weights) - log K; ChangeTarget: log-weight =
    new importance weight - old score + old log-weight (fresh sites sampled by the new target's
    internal proposal), score = new joint;
  * statistically (two-stage, exact variances): particle frequencies = q; mean exp(lml) = Z;
@@ -45,6 +45,7 @@ K_NOPROP = "importance_csmc_no_proposal"
 K_STACK = "importancek_csmc_stack"
 K_PARTIAL = "csmc_partial_proposal_internal_density"
 K_INDEXED = "target_indexed_constraint_unfiltered"
+K_KEYREUSE = "changetarget_key_reuse"
 
 
 def _bad(klass, msg, case):
@@ -271,8 +272,6 @@ def check_discrete(case, ctx=None):
             cnt += np.bincount(xi.ravel(), minlength=cr.X)
             if change:
                 ei, codes2 = particles_check("ChangeTarget.run_smc", *o2, cr.L2, cr.E, cr.obs2, cr.logW, cr.logP)
-                if not np.array_equal(codes2[..., cr.L], codes[..., cr.L]):
-                    _bad("changetarget-latents", f"ChangeTarget.run_smc(key) particles do not carry the unconstrained choices of prev.run_smc(key); {desc}", case)
                 cnt2 += np.bincount(ei.ravel(), minlength=cr.E)
             la = np.asarray(lml_api).astype(np.float64)
             if la.shape != (CHUNK,) or not np.all(np.isfinite(la)):
@@ -295,7 +294,7 @@ def check_discrete(case, ctx=None):
     violated, infos = stats.two_stage(stage_smc, n1)
     _count(ctx, "smc-tests", infos)
     if violated:
-        _bad("evidence-or-proposal", f"particle frequencies / E[exp(lml)] = Z contradicted at both stages: {infos}; {desc}", case)
+        _bad(K_KEYREUSE if (change and cr.F and K == 2) else "evidence-or-proposal", f"particle frequencies / E[exp(lml)] = Z contradicted at both stages: {infos}; {desc}", case)
 
     # ---- B. random_weighted -----------------------------------------------------------------
     f_rw = jax.jit(jax.vmap(lambda k: alg.random_weighted(k, target2)))
@@ -342,7 +341,7 @@ def check_discrete(case, ctx=None):
     violated, infos = stats.two_stage(stage_rw, n1)
     _count(ctx, "rw-tests", infos)
     if violated:
-        _bad("rw-law", f"random_weighted output differs from the exact sampling-importance-resampling law at both stages: {infos}; {desc}", case)
+        _bad(K_KEYREUSE if (change and cr.F and K == 2) else "rw-law", f"random_weighted output differs from the exact sampling-importance-resampling law at both stages: {infos}; {desc}", case)
 
     # ---- C. estimate_logpdf ------------------------------------------------------------------
     if case.get("est") and not change:
@@ -633,7 +632,7 @@ def est_exclusions(case, is_open):
 def guide_strategy(draw, spec, obs_sites, latent):
     """guide over a non-empty subset G of the latent sites (in model order); its sites may depend
     on earlier guide sites and on the observed values"""
-    full = draw(st.integers(0, 3)) > 0
+    full = draw(st.booleans())
     if full or len(latent) == 1:
         G = list(latent)
     else:
@@ -681,14 +680,28 @@ def discrete_strategy(ctx, n):
         else:
             q = guide_strategy(draw, spec, obs_sites, latent)
         change = None
-        if draw(st.integers(0, 3)) == 3:
-            keep = [o for o in obs if draw(st.integers(0, 3)) > 0]
-            if not keep and draw(st.booleans()):
+        # every fourth shard insists on a second target that drops a constrained address
+        force_drop = ctx.shard % 4 == 1
+        if force_drop and k == 2 and ctx.is_open(K_KEYREUSE) and not FULL:
+            k = 3 if X**3 <= 5000 else 1
+            kind = "ImportanceK"
+        if force_drop or draw(st.integers(0, 2)) == 2:
+            # open finding changetarget_key_reuse: with 2 particles the choices sampled afresh by the
+            # new target are correlated with the proposed ones -> keep every constrained address
+            keep_all = k == 2 and ctx.is_open(K_KEYREUSE) and not FULL
+            dropped = draw(st.integers(0, len(obs) - 1)) if force_drop else -1
+            keep = [o for j, o in enumerate(obs) if j != dropped and (keep_all or draw(st.integers(0, 3)) > 0)]
+            if not keep and not force_drop and draw(st.booleans()):
                 keep = [obs[0]]
             new = [[i, draw(st.integers(0, im.ncodes(spec["sites"][i]) - 1))] for i, _ in keep]
             e_size = X * int(np.prod([im.ncodes(spec["sites"][i]) for i, _ in obs if i not in [a for a, _ in new]]))
+            if force_drop and kind == "ImportanceK":
+                while k > 1 and (e_size**k > 20000 or (k == 2 and ctx.is_open(K_KEYREUSE) and not FULL)):
+                    k -= 1
             if e_size**k <= 20000 and new != obs:
                 change = {"obs": new}
+                if keep_all:
+                    change["keyreuse_excluded"] = True
         case = {
             "type": "discrete",
             "model": spec,
@@ -795,6 +808,8 @@ def run(ctx):
         if not FULL and not case.get("est") and case.get("change") is None:
             for k in est_exclusions(case, ctx.is_open):
                 ctx.exclude(k)
+        if (case.get("change") or {}).get("keyreuse_excluded"):
+            ctx.exclude(K_KEYREUSE)
         try:
             check_case(case, ctx)
         finally:
@@ -915,3 +930,44 @@ def probes(ctx):
     except Exception as e:  # noqa: BLE001
         fails, what = True, f"raised {type(e).__name__}: {str(e)[:300]}"
     ctx.probe(K_INDEXED, fails, what)
+
+    # changetarget_key_reuse (open): 2 particles, the new target drops the constraint on a vmapped
+    # site; its fresh value in particle 1 must be independent of the guide's proposal for z
+    case = {
+        "type": "discrete",
+        "model": {
+            "style": "str",
+            "arg": None,
+            "sites": [
+                {"addr": ["x"], "kind": "vmap", "n": 2, "parents": [], "table": [[0.2, 0.65]], "mix": False},
+                {"addr": ["z"], "kind": "flip", "n": 2, "parents": [0], "table": [0.8, 0.3, 0.5], "mix": False},
+            ],
+        },
+        "obs": [[0, 1]],
+        "obs_form": "static",
+        "alg": {"kind": "ImportanceK", "k": 2, "q": {"kind": "guide", "sites": [1], "in_sites": [], "ctor": "decorator", "spec": {"style": "str", "arg": None, "inputs": [], "sites": [{"addr": ["z"], "kind": "flip", "n": 2, "parents": [], "table": [0.5], "mix": False}]}}},
+        "change": {"obs": []},
+        "est_at": [],
+        "key": 0,
+        "n": CHUNK,
+        "est": False,
+    }
+    try:
+        from genjax.inference.smc import ChangeTarget
+
+        cr = CaseRef(case)
+        gen, args, target, target2, alg = build(case, cr)
+        n = 4000
+        ch = jax.jit(jax.vmap(lambda k: ChangeTarget(alg, target2).run_smc(k).get_particles().get_choices()))(jax.random.split(jax.random.key(1), n))
+        codes, _ = im.decode(case["model"], ch, [0, 1])
+        e = _index_cols(cr.ref, [0, 1], codes)  # (n, 2)
+        worst = 0.0
+        for p_ in range(2):
+            cnt = np.bincount(e[:, p_], minlength=cr.E)
+            pv, stat, dof = im.chi2_pooled(cnt, cr.Q)
+            worst = max(worst, stat)
+        fails = worst > 200.0  # dof 7; independent sampling gives ~7
+        what = f"ImportanceK(t, guide, 2), ChangeTarget to a target without the constraint on the vmapped site x: chi-square of the (fresh x, proposed z) table of one particle against p(x) q(z) = {worst:.0f} (dof 7, {n} keys)"
+    except Exception as e:  # noqa: BLE001
+        fails, what = True, f"raised {type(e).__name__}: {str(e)[:300]}"
+    ctx.probe(K_KEYREUSE, fails, what)
